@@ -1202,6 +1202,224 @@ namespace
     fflush(stdout);
     return 0;
   }
+
+  ////////////////////////////////////////////////////////////////////////////
+  // Scenario 4: shutrace  (single threaded, deterministic)
+  //   clients=<n> TCP connects complete in the kernel backlog BEFORE the
+  //   server's loop runs; the k-th connected event (at=<k>, 0 = before the
+  //   loop starts) posts action=<shutdown|close> to the loop.  The loop is then
+  //   run for at most 3 s.
+  //   RESULT scenario=shutrace clients=<n> at=<k> action=<a> connected=<n>
+  //          disconnected=<n> connected_after=<n> loop_returned=<0|1> loop_ms=<n>
+  //          released=<n> (clients that saw eof/reset) exceptions=<n>
+  int scenario_shutrace(arg_map const& args)
+  {
+#ifdef NET_TLS
+    (void) args;
+    return fail("shutrace is a plain-TCP scenario");
+#else
+    long long clients(0), at(0);
+    std::string action, err;
+    if (!get_int(args, "clients", clients, err) ||
+        !get_int(args, "at", at, err) ||
+        !get_str(args, "action", action, err))
+      return fail(err);
+    if (action != "shutdown" && action != "close")
+      return fail("bad value for action");
+
+    asio::io_context io;
+    std::unique_ptr<http_server_type> srv;
+    int connected(0), disconnected(0), connected_after(0), exceptions(0);
+    bool acted(false);
+    unsigned short port(0);
+    bool ok(false);
+    for (int attempt(0); attempt < 25 && !ok; ++attempt)
+    {
+      port = pick_free_port();
+      if (!port)
+        continue;
+      try
+      {
+        srv.reset(new http_server_type(io));
+        srv->request_received_event(
+          [](http_connection::weak_pointer, http_request const&, std::string const&) {});
+        asio::error_code aec(srv->accept_connections(port));
+        ok = !aec;
+      }
+      catch (std::exception const&)
+      { ok = false; }
+      if (!ok)
+        srv.reset();
+    }
+    if (!ok)
+      return fail("server: could not listen");
+
+    auto act([&]()
+    {
+      acted = true;
+      if (action == "shutdown")
+        srv->shutdown();
+      else
+        srv->close();
+    });
+
+    srv->socket_connected_event([&](http_connection::weak_pointer)
+    {
+      ++connected;
+      if (acted)
+        ++connected_after;
+      else if (connected == at)
+        asio::post(io, act);
+    });
+    srv->socket_disconnected_event([&](http_connection::weak_pointer)
+    { ++disconnected; });
+
+    asio::io_context cio;
+    std::vector<std::unique_ptr<tcp::socket>> peers;
+    tcp::endpoint endpoint(asio::ip::address_v4::loopback(), port);
+    for (long long i(0); i < clients; ++i)
+    {
+      peers.emplace_back(new tcp::socket(cio));
+      asio::error_code ec;
+      peers.back()->connect(endpoint, ec);
+      if (ec)
+        return fail("peer: connect: " + ec.message());
+    }
+    if (at == 0)
+      asio::post(io, act);
+
+    auto t0(clock_type::now());
+    for (;;)
+    {
+      try
+      {
+        io.run_for(std::chrono::milliseconds(3000 - std::min<long long>(2999, ms_since(t0))));
+        break;
+      }
+      catch (std::exception const&)
+      { ++exceptions; }
+    }
+    long long loop_ms(ms_since(t0));
+    int loop_returned((io.stopped() && loop_ms < 2500) ? 1 : 0);
+
+    int released(0);
+    for (auto& p : peers)
+    {
+      char byte(0);
+      asio::error_code ec;
+      p->non_blocking(true, ec);
+      p->read_some(asio::buffer(&byte, 1), ec);
+      if (ec && ec != asio::error::would_block)
+        ++released;
+    }
+    std::ostringstream os;
+    os << "RESULT scenario=shutrace clients=" << clients << " at=" << at
+       << " action=" << action << " acted=" << (acted ? 1 : 0)
+       << " connected=" << connected << " disconnected=" << disconnected
+       << " connected_after=" << connected_after
+       << " loop_returned=" << loop_returned << " loop_ms=" << loop_ms
+       << " released=" << released << " exceptions=" << exceptions
+       << " variant=" << VARIANT << " thread_safe=" << THREAD_SAFE;
+    printf("%s\n", os.str().c_str());
+    fflush(stdout);
+    peers.clear();
+    srv.reset();
+    return 0;
+#endif
+  }
+
+  ////////////////////////////////////////////////////////////////////////////
+  // Scenario 5: abrupt
+  //   n=<count> peers connect (TLS: handshake), mode=idle|afterresp (send a
+  //   keep-alive GET and read the whole response first), then close the TCP
+  //   socket without any goodbye (TLS: no close_notify).  The server must signal
+  //   disconnected for every connection it signalled as connected.
+  //   RESULT scenario=abrupt n=<n> mode=<m> connected=<n> disconnected=<n> errors=<n> waited_ms=<n>
+  int scenario_abrupt(arg_map const& args)
+  {
+    long long n(0);
+    std::string mode, err;
+    if (!get_int(args, "n", n, err) || !get_str(args, "mode", mode, err))
+      return fail(err);
+    if (mode != "idle" && mode != "afterresp")
+      return fail("bad value for mode");
+
+    std::atomic<int> connected(0), disconnected(0), handled(0);
+    ServerBox box;
+    if (!box.start([&](http_server_type& srv)
+        {
+          srv.request_received_event(
+            [&handled](http_connection::weak_pointer weak_ptr,
+                       http_request const&, std::string const&)
+          {
+            ++handled;
+            http_connection::shared_pointer connection(weak_ptr.lock());
+            if (connection)
+            {
+              via::http::tx_response response(via::http::response_status::code::OK);
+              connection->send(std::move(response), std::string("hello"));
+            }
+          });
+          srv.socket_connected_event([&connected](http_connection::weak_pointer)
+          { ++connected; });
+          srv.socket_disconnected_event([&disconnected](http_connection::weak_pointer)
+          { ++disconnected; });
+        }, 1, err))
+      return fail("server: " + err);
+
+    int peer_errors(0);
+    for (long long i(0); i < n; ++i)
+    {
+      Peer peer;
+      if (!peer.connect(box.port(), true, 5000, err))
+      { ++peer_errors; continue; }
+      if (mode == "afterresp")
+      {
+        if (!peer.write_all("GET / HTTP/1.1\r\nHost: localhost\r\n\r\n", 2000))
+        { ++peer_errors; peer.abort_socket(); continue; }
+        std::string head, chunk;
+        size_t head_len(0);
+        long long content_length(-1);
+        int status(0);
+        auto t0(clock_type::now());
+        bool done(false);
+        while (!done && ms_since(t0) < 3000)
+        {
+          chunk.clear();
+          Peer::Rd rd(peer.read_some(chunk, 3000 - ms_since(t0)));
+          if (rd != Peer::Rd::Data)
+            break;
+          head += chunk;
+          if (parse_head(head, head_len, content_length, status) &&
+              content_length >= 0 &&
+              head.size() >= head_len + static_cast<size_t>(content_length))
+            done = true;
+        }
+        if (!done)
+          ++peer_errors;
+      }
+      else
+        sleep_ms(20);
+      peer.abort_socket();
+    }
+
+    auto t0(clock_type::now());
+    while (ms_since(t0) < 2000 && disconnected.load() < connected.load())
+      sleep_ms(10);
+    long long waited(ms_since(t0));
+    int c(connected.load()), d(disconnected.load());
+    box.stop(500);
+
+    std::ostringstream os;
+    os << "RESULT scenario=abrupt n=" << n << " mode=" << mode
+       << " connected=" << c << " disconnected=" << d
+       << " handled=" << handled.load()
+       << " errors=" << peer_errors << " waited_ms=" << waited
+       << tail_keys(box);
+    printf("%s\n", os.str().c_str());
+    fflush(stdout);
+    return 0;
+  }
 }
 
 //////////////////////////////////////////////////////////////////////////////
@@ -1238,6 +1456,10 @@ int main(int argc, char* argv[])
       return scenario_bigbody(args);
     if (scenario == "pool")
       return scenario_pool(args);
+    if (scenario == "shutrace")
+      return scenario_shutrace(args);
+    if (scenario == "abrupt")
+      return scenario_abrupt(args);
   }
   catch (std::exception const& e)
   {
